@@ -15,7 +15,8 @@ Write(e, m, res) ==
 \* a Read that returned: res = "ok" with message id and n bytes, or "eof"
 Read(e, cap, res, id, n) ==
     IF closed[e] THEN res = "eof" /\ UNCHANGED dpvars
-    ELSE /\ inbox[e] # <<>> /\ res = "ok" /\ Head(inbox[e]).id = id
+    ELSE /\ inbox[e] # <<>> /\ res = "ok"
+         /\ (Head(inbox[e]).id = id \/ (id = -1 /\ n = 0 /\ Head(inbox[e]).len = 0))   \* empty messages carry no id
          /\ n = (IF Head(inbox[e]).len < cap THEN Head(inbox[e]).len ELSE cap)
          /\ inbox' = [inbox EXCEPT ![e] = Tail(@)] /\ UNCHANGED closed
 WouldBlock(e) == ~closed[e] /\ inbox[e] = <<>>
